@@ -381,6 +381,15 @@ def run(R):
             if v and v.startswith('plat:'):
                 return None        # each candidate may or may not exist
             raise AnalysisError(f'{rl.qual}: existence test on an untracked value `{t}`')
+        if isinstance(e, ast.Call) and ast.unparse(e.func) == 'os.path.isabs' and len(e.args) == 1:
+            v = sym(e.args[0], st)
+            if v == 'given':
+                return VAL['A']
+            if v == 'empty':
+                return False
+            if v == 'joined' and VAL['A']:
+                return True         # joining onto an absolute location gives that location
+            return None
         c = cmp_sides(e)
         if c:
             l, op, r = c
@@ -400,7 +409,7 @@ def run(R):
     def undecided(n, stt):
         # a fork is modelled only for the existence of a platform candidate
         e = n.ast
-        if isinstance(e, ast.Call) and ast.unparse(e.func) == 'os.path.exists':
+        if isinstance(e, ast.Call) and ast.unparse(e.func) in ('os.path.exists', 'os.path.isabs'):
             return
         if any(isinstance(x, ast.Name) and (x.id in dict(stt) or x.id in (p_item, p_value)) for x in ast.walk(e)):
             raise AnalysisError(f'{rl.qual}: unrecognised condition on the location `{norm(e)}`')
@@ -467,10 +476,11 @@ def run(R):
         for E1 in (True, False):
             for Pv in (True, False):
                 for E2 in (True, False):
-                    for I in (True, False):
-                        if (not L and (E1 or E2)) or (not Pv and E2):
+                    for I, A in ((True, False), (False, False), (True, True), (False, True)):
+                        # A: the location is an absolute path (then "relative to the file's directory" is the location itself)
+                        if (not L and (E1 or E2 or A)) or (not Pv and E2) or (A and E2 != E1):
                             continue
-                        VAL = {'C': C, 'L': L, 'E1': E1, 'P': Pv, 'E2': E2, 'I': I}
+                        VAL = {'C': C, 'L': L, 'E1': E1, 'P': Pv, 'E2': E2, 'I': I, 'A': A}
                         n_val += 1
                         reached = explore_sym(rl, atom_t, transfer, st0, on_edge, on_undecided=undecided)
                         got = set()
@@ -490,8 +500,11 @@ def run(R):
                             want = {'platok:' + kind, 'joined'}
                         else:
                             want = {'platok:' + kind, 'given'}
+                        if A:
+                            got = {('given' if x == 'joined' else x) for x in got}
+                            want = {('given' if x == 'joined' else x) for x in want}
                         if got != want:
-                            desc = f'location {"non-empty" if L else "empty"}' + (f', {"exists" if E1 else "missing"} as given' if L else '') + \
+                            desc = f'location {"non-empty" if L else "empty"}' + (' and absolute' if A else '') + (f', {"exists" if E1 else "missing"} as given' if L else '') + \
                                 (f', configuration file {"present" if Pv else "absent"}' if L and not E1 else '') + \
                                 (f', {"exists" if E2 else "missing"} relative to it' if L and not E1 and Pv else '') + f', item {kind}'
                             probs.append((f'[{desc}] resolves to {sorted(got)}, expected {sorted(want)}', rl.f.node))
@@ -501,5 +514,5 @@ def run(R):
         for (what, construct) in probs[:1]:
             R.fail('C20.MPT.1', inst, rl.qual, 'def resolve_location', what + (f' (+{len(probs) - 1} more valuations)' if len(probs) > 1 else ''), site(rl, construct))
     else:
-        R.ok('C20.MPT.1', inst, site(rl, rl.f.node), f'{n_val} valuations of (colon?, location empty?, exists as given?, configuration file?, exists relative?, item)')
+        R.ok('C20.MPT.1', inst, site(rl, rl.f.node), f'{n_val} valuations of (colon?, location empty?, absolute?, exists as given?, configuration file?, exists relative?, item)')
     R.assumptions += ['ConfigParser / urlparse / os.path semantics', 'file-system state is not decided']
